@@ -240,6 +240,9 @@ impl<S: ShortGroupSignatureScheme> Issuer<S> {
                 c.to_scalar(),
             ));
             if let ClaimData::Revocation(rc) = c {
+                if revocation_claim.is_some() {
+                    return Err(Error::InvalidClaimData("multiple revocation claims found"));
+                }
                 revocation_label = Some(label.clone());
                 revocation_claim = Some(rc);
             }
